@@ -826,6 +826,24 @@ func ruleK12(p *Program, r *Reporter) {
 				// constant slot (e.g. the "uuid" tag of position 0)
 				r.Ob(rule, fname, "member "+s, pr.enc.Pos(), true, false, "slot carries no receiver field in either direction")
 			case len(d) == 0:
+				// a slot computed from fields that travel (and are restored) in another slot is a
+				// derived discriminator (e.g. the "uuid"/"named-uuid" tag), not lost information
+				derived := true
+				for f := range e {
+					carried := false
+					for t, et := range eh.slots {
+						if t != s && et[f] && dh.slots[t][f] {
+							carried = true
+						}
+					}
+					if !carried {
+						derived = false
+					}
+				}
+				if derived {
+					r.Ob(rule, fname, "member "+s, pr.enc.Pos(), true, true, fmt.Sprintf("%q is derived from %s, which is carried and restored through another member", s, setStr(e)))
+					break
+				}
 				r.Ob(rule, fname, "member "+s, pr.dec.Pos(), false, true, fmt.Sprintf("encoder writes %s into %q but the decoder never stores that member into the receiver (value lost on decode)", setStr(e), s))
 			case len(e) == 0:
 				r.Ob(rule, fname, "member "+s, pr.enc.Pos(), false, true, fmt.Sprintf("decoder stores %q into %s but the encoder never emits that member from the receiver (value lost on encode)", s, setStr(d)))
